@@ -13,13 +13,17 @@ def register_all(chk):
         "Unbounded deductive proof (Verus/Z3) over the text of weighted_tree.rs extracted from /repo on this run: the representation invariant "
         "wf is established by `new` and preserved by push/pop/update, each with a postcondition over the whole abstract view (the weight list); "
         "errors leave the structure unchanged and Overflow is exact; lemma_canonical shows equal views imply == structures, so any history ends "
-        "in the state `new(list)` builds. Induction over histories is the invariant argument - no bound on history length or tree size.")
+        "in the state `new(list)` builds. Induction over histories is the invariant argument - no bound on history length or tree size. "
+        "The contract the proof assumes for rand's Weight::checked_add_assign is discharged by Kani against rand's real impl (all pairs, every integer type).",
+        verus=True, kani=True)
     chk.contract_property(
         "C10", "WeightedTreeIndex samples proportionally to the current weights",
         "Unbounded deductive proof (Verus/Z3): for every wf state (hence after any history, C09) try_sample returns InsufficientNonZero iff the "
         "total is 0, otherwise the index and residual are descend(s,0,t) for the single drawn target t, both internal assert!s hold, the "
         "returned weight is > 0; lemma_descend_bijection shows t -> (index,residual) is a bijection onto {(i,r): r < w_i}, i.e. exactly w_i of "
-        "the `total` equally likely targets select i. Integer weight types only.")
+        "the `total` equally likely targets select i. Integer weight types only: for float weights two genuine defects (internal assertion "
+        "failing although is_valid() is true) are pinned as known findings.",
+        verus=True, kani=True)
     chk.contract_property(
         "C04", "Constructors accept exactly the documented parameter domain and never panic",
         "Every constructor carries a postcondition written from the documentation of its error variants (kx/spec.rs): Err iff a documented "
@@ -53,3 +57,11 @@ def register_all(chk):
         "that f64 runs, but f64 itself is NOT proved (multiplier miters do not close: DESIGN.md 2.8). Exp/Weibull/Pareto/Gamma/InverseGaussian/"
         "Triangular/Pert/SkewNormal are not reached.",
         verus=False, kani=True)
+    chk.contract_property(
+        "C11", "Dirichlet: structure of the sampler (length, method choice, stick-breaking parameters)",
+        "What contracts can pin down about Dirichlet is its structure; the law, the simplex numerics (sum to 1 within ulps, components <= 1) and "
+        "the per-sample behaviour of sample_to_slice are NOT claimed. Bounded Kani units on the real code (child module of dirichlet.rs): "
+        "Dirichlet::new on every 2-vector of f64 bit patterns (error variants as documented, Ok => sample_len()==2, Beta method iff every alpha <= 0.1, "
+        "no panic); lengths 0/1 rejected; stick-breaking parameter structure for n = 3 (sampler j is Beta{alpha_j, right-to-left tail sum}); "
+        "length mismatch in sample_to_slice panics. All bounded in the vector length: level `other`.",
+        verus=False, kani=True, level="other")
